@@ -46,6 +46,8 @@ var c04LitsFn = []string{
 	"_ = X", "X = _", "_ != X", "_ = fn:plus(X, 1)",
 	":list:member(X, [X])", ":list:member(Y, [X, Y])", ":list:member(X, [1, Y])",
 	"fn:plus(Y, 1) < 3", "X < fn:plus(Y, 1)", ":match_pair(fn:pair(X, Y), X, Z)", "Y = fn:plus(fn:plus(X, 1), Z)",
+	// equalities and inequalities with a function application or constructor on both sides
+	"fn:plus(X, 1) = fn:plus(Y, 1)", "fn:pair(X, 1) = fn:pair(Y, 1)", "[X] = [Y]", "fn:plus(Y, 1) = fn:plus(X, 1)", "fn:plus(X, 1) != fn:plus(Y, 1)",
 	// negated built-ins (prefix form) over bound variables, unbound variables and function applications
 	"!:lt(X, 2)", "!:le(Y, X)", "!:lt(fn:plus(X, 1), 3)", "!:list:member(X, [1, Y])",
 }
@@ -207,7 +209,7 @@ func c04(r *rt.Run) {
 		}
 		c04Clause(r, clauses[i])
 	})
-	r.Finish("every clause H :- L1..Lk (k<=3 over 28 literals, k<=3 over a 20-literal family with function applications inside atoms / wildcards in equalities / list patterns x 6 transform tails incl. let chains, k<=3 over a 19-literal destructuring family (:match_pair / :match_cons / :match_nil / :list:member with repeated, bound and self-referential output positions), k=4 over a focused 9-literal set and over an 8-literal set with wildcards in atoms and equalities; a temporal family (10 head annotation forms x every ordered body of <=2 literals over 16 annotated atoms/operators, evaluated against a temporal store: no panic, no 'variable has no value' error); thorough adds k=4 over 16) in every order x 5 heads x 4 transform tails, analysed alone with declared EDB predicates; accepted ones evaluated on 3 EDBs; " +
+	r.Finish("every clause H :- L1..Lk (k<=3 over 28 literals, k<=3 over a 29-literal family with function applications inside atoms and on both sides of (in)equalities / wildcards in equalities / list patterns x 6 transform tails incl. let chains, k<=3 over a 19-literal destructuring family (:match_pair / :match_cons / :match_nil / :list:member with repeated, bound and self-referential output positions), k=4 over a focused 9-literal set and over an 8-literal set with wildcards in atoms and equalities; a temporal family (10 head annotation forms x every ordered body of <=2 literals over 16 annotated atoms/operators, evaluated against a temporal store: no panic, no 'variable has no value' error); thorough adds k=4 over 16) in every order x 5 heads x 4 transform tails, analysed alone with declared EDB predicates; accepted ones evaluated on 3 EDBs; " +
 		"non-trivial = accepted clause whose reference result is non-empty on some EDB; distinct by construction")
 }
 
